@@ -756,6 +756,22 @@ func runReplay(c *corr.Ctx) {
 		Elems []ElemSpec `json:"elems"`
 	}
 	_ = json.Unmarshal(c.Replay, &probe)
+	if probe.Kind == "concurrent" {
+		var cc ConcCase
+		if err := json.Unmarshal(c.Replay, &cc); err != nil {
+			panic(err)
+		}
+		(&gen{c: c, r: c.Rng}).runConcurrent(&cc)
+		return
+	}
+	if probe.Kind == "url-shape" {
+		var us URLShape
+		if err := json.Unmarshal(c.Replay, &us); err != nil {
+			panic(err)
+		}
+		runURLShape(&gen{c: c, r: c.Rng}, &us)
+		return
+	}
 	if probe.Kind == "marshal" {
 		var mc MarshalCase
 		if err := json.Unmarshal(c.Replay, &mc); err != nil {
@@ -807,6 +823,14 @@ func Run(c *corr.Ctx) {
 		guarded(c, "e2e", func() { runE2E(c, g) })
 		return
 	}
+	if os.Getenv("VERIF_FRAME_ONLY") == "conc" { // debugging aid
+		guarded(c, "concurrent-writers", func() { g.runConcurrent(nil) })
+		return
+	}
+	if os.Getenv("VERIF_FRAME_ONLY") == "url" { // debugging aid
+		guarded(c, "url-shapes", g.urlShapeSweep)
+		return
+	}
 	if os.Getenv("VERIF_FRAME_ONLY") == "agree" { // debugging aid
 		guarded(c, "marshal-agreement", g.marshalAgreementSweep)
 		return
@@ -821,6 +845,7 @@ func Run(c *corr.Ctx) {
 	guarded(c, "hand-written", g.handWritten)
 	guarded(c, "b64-hand-written", g.b64HandWritten)
 	guarded(c, "marshal-agreement", g.marshalAgreementSweep)
+	guarded(c, "url-shapes", g.urlShapeSweep)
 	phase("corpus+hand-written")
 	guarded(c, "boundary", g.boundarySweep)
 	phase("boundary")
@@ -857,4 +882,6 @@ func Run(c *corr.Ctx) {
 	}
 	phase("tunnel")
 	guarded(c, "e2e", func() { runE2E(c, g) })
+	guarded(c, "concurrent-writers", func() { g.runConcurrent(nil) })
+	phase("concurrent-writers")
 }
